@@ -14,6 +14,8 @@ var runMarker = regexp.MustCompile(`^RUN (\d+) BEGIN$`)
 // parseRaces splits race detector output into reports and derives a
 // signature (unordered pair of the first repository frames of the two
 // accesses) for each report that involves repository code.
+var managerMethod = regexp.MustCompile(`\(\*Manager\)\.(\w+)`)
+
 func parseRaces(stderr string) (sigs map[string]string, runOf map[string]uint64, harnessOnly int) {
 	sigs = map[string]string{}
 	runOf = map[string]uint64{}
@@ -50,11 +52,24 @@ func parseRaces(stderr string) (sigs map[string]string, runOf map[string]uint64,
 		}
 		var fr []string
 		repo := false
+		listener := false
+		for k := 0; k < len(stanzas) && k < 2; k++ {
+			for _, l := range stanzas[k][1:] {
+				if strings.Contains(l, "encoding/json.Marshal(") {
+					// the harness's event listener encodes every event, as the websocket handler does
+					listener = true
+				}
+			}
+		}
 		for k := 0; k < len(stanzas) && k < 2; k++ {
 			f := "?"
 			inLoop := false
+			loopFn := ""
 			for _, l := range stanzas[k][1:] {
 				t := strings.TrimSpace(l)
+				if m := managerMethod.FindStringSubmatch(t); m != nil && loopFn == "" {
+					loopFn = m[1]
+				}
 				if strings.HasPrefix(t, "github.com/spq/pkappa2/internal/index/manager.New.func1(") {
 					// the access happens inside the service loop
 					inLoop = true
@@ -69,11 +84,18 @@ func parseRaces(stderr string) (sigs map[string]string, runOf map[string]uint64,
 			}
 			if inLoop {
 				// which closure of the manager runs in the loop is incidental
-				if strings.HasPrefix(f, "internal/index/manager.") {
+				if strings.HasPrefix(f, "internal/index/manager.") || f == "?" {
 					f = "<service loop>"
+					if listener && loopFn != "" {
+						// ... except against an event listener: the event of that call is what is shared
+						f = "<service loop>" + loopFn
+						repo = true
+					}
 				} else {
 					f = "<service loop>" + f
 				}
+			} else if f == "?" && listener {
+				f = "<event listener>"
 			}
 			fr = append(fr, f)
 		}
